@@ -118,11 +118,13 @@ Definition spec_inside (poly : list pt) (p : pt) : bool :=
   parity (fun e => proper_cross (fst e) (snd e) p) (closed_edges poly).
 
 (* -- an evaluator that uses no ray at all: the winding number by quadrants.
-   Quadrant of v seen from p (v <> p): 0: dx>0,dy>=0  1: dx<=0,dy>0
-                                        2: dx<0,dy<=0  3: dx>=0,dy<0 *)
+   Quadrant of v seen from p (v <> p): 0: dx>0,dy>0   1: dx<=0,dy>0
+                                        2: dx<0,dy<=0  3: dx>=0,dy<=0
+   (four convex cones; the closed lower half plane belongs to 2 and 3, as the
+   half-open rule of the loop counts a vertex level with the point as below) *)
 Definition quadrant (p v : pt) : Z :=
   let dx := fst v - fst p in let dy := snd v - snd p in
-  if Qltb 0 dx && Qleb 0 dy then 0%Z
+  if Qltb 0 dx && Qltb 0 dy then 0%Z
   else if Qleb dx 0 && Qltb 0 dy then 1%Z
   else if Qltb dx 0 && Qleb dy 0 then 2%Z
   else 3%Z.
@@ -153,84 +155,13 @@ Definition cross_left (vi vj p : pt) : bool :=
   || (Qleb yj y && Qltb y yi
       && Qltb ((x - xi) * (yj - yi)) ((xj - xi) * (y - yi))).
 
-(* ---- finite domains of the sweep theorem ---------------------------------- *)
-Fixpoint lists_of {A} (n : nat) (xs : list A) : list (list A) :=
-  match n with
-  | O => [[]]
-  | S n' => flat_map (fun l => map (fun x => x :: l) xs) (lists_of n' xs)
-  end.
+(* proper crossings of the ray towards -x (specification of C15_left_ray_agrees) *)
+Definition proper_cross_left (a b p : pt) : bool :=
+  (Qltb (snd a) (snd p) && Qltb (snd p) (snd b) && Qltb (orient a b p) 0)
+  || (Qltb (snd b) (snd p) && Qltb (snd p) (snd a) && Qltb 0 (orient a b p)).
 
-Definition zrange (lo : Z) (n : nat) : list Z := map (fun k => (lo + Z.of_nat k)%Z) (seq 0 n).
-
-(* integer grid {0..k-1}^2 *)
-Definition grid_pts (k : nat) : list pt :=
-  flat_map (fun x => map (fun y => (inject_Z x, inject_Z y)) (zrange 0 k)) (zrange 0 k).
-
-(* half-integer grid {-1/2, 0, 1/2, ..., k-1/2}^2 *)
-Definition half_pts (k : nat) : list pt :=
-  flat_map (fun x => map (fun y => (x # 2, y # 2)) (zrange (-1) (2 * k + 1)))
-           (zrange (-1) (2 * k + 1)).
-
-(* ---- the same evaluators over integer coordinates (fast sweep) ------------ *)
-Definition zpt := (Z * Z)%type.
-Definition inj (v : zpt) : pt := (inject_Z (fst v), inject_Z (snd v)).
-Definition zltb (a b : Z) : bool := negb (b <=? a)%Z.
-
-Definition zcross (vi vj p : zpt) : bool :=
-  let xi := fst vi in let yi := snd vi in
-  let xj := fst vj in let yj := snd vj in
-  let x := fst p in let y := snd p in
-  ((yi <=? y) && zltb y yj
-   && zltb ((x - xi) * (yj - yi)) ((xj - xi) * (y - yi)))%Z
-  || ((yj <=? y) && zltb y yi
-      && zltb ((xj - xi) * (y - yi)) ((x - xi) * (yj - yi)))%Z.
-
-Definition zcross_left (vi vj p : zpt) : bool :=
-  let xi := fst vi in let yi := snd vi in
-  let xj := fst vj in let yj := snd vj in
-  let x := fst p in let y := snd p in
-  ((yi <=? y) && zltb y yj
-   && zltb ((xj - xi) * (y - yi)) ((x - xi) * (yj - yi)))%Z
-  || ((yj <=? y) && zltb y yi
-      && zltb ((x - xi) * (yj - yi)) ((xj - xi) * (y - yi)))%Z.
-
-Definition zorient (a b p : zpt) : Z :=
-  ((fst b - fst a) * (snd p - snd a) - (snd b - snd a) * (fst p - fst a))%Z.
-
-Definition zbetween (a b x : Z) : bool :=
-  ((a <=? x) && (x <=? b) || (b <=? x) && (x <=? a))%Z.
-
-Definition zon_segment (a b p : zpt) : bool :=
-  (zorient a b p =? 0)%Z
-  && zbetween (fst a) (fst b) (fst p) && zbetween (snd a) (snd b) (snd p).
-
-Definition zon_boundary (poly : list zpt) (p : zpt) : bool :=
-  existsb (fun e => zon_segment (fst e) (snd e) p) (closed_edges poly).
-
-Definition zquadrant (p v : zpt) : Z :=
-  let dx := (fst v - fst p)%Z in let dy := (snd v - snd p)%Z in
-  if zltb 0 dx && (0 <=? dy)%Z then 0%Z
-  else if (dx <=? 0)%Z && zltb 0 dy then 1%Z
-  else if zltb dx 0 && (dy <=? 0)%Z then 2%Z
-  else 3%Z.
-
-Definition zquarter_turns (p : zpt) (e : zpt * zpt) : Z :=
-  let v := fst e in let prev := snd e in
-  let d := ((zquadrant p v - zquadrant p prev) mod 4)%Z in
-  if (d =? 0)%Z then 0%Z
-  else if (d =? 1)%Z then 1%Z
-  else if (d =? 3)%Z then (-1)%Z
-  else if zltb 0 (zorient prev v p) then 2%Z else (-2)%Z.
-
-Definition zwinding4 (poly : list zpt) (p : zpt) : Z :=
-  fold_right (fun e acc => (zquarter_turns p e + acc)%Z) 0%Z (closed_edges poly).
-
-(* grid with spacing 2: {0,2,..,2(k-1)}^2; query points: all integers of
-   [-1, 2k-1]^2, i.e. the half-integer grid of the unit grid scaled by 2 *)
-Definition zgrid (k : nat) : list zpt :=
-  flat_map (fun x => map (fun y => ((2 * x)%Z, (2 * y)%Z)) (zrange 0 k)) (zrange 0 k).
-Definition zquery (k : nat) : list zpt :=
-  flat_map (fun x => map (fun y => (x, y)) (zrange (-1) (2 * k + 1))) (zrange (-1) (2 * k + 1)).
+Definition spec_inside_left (poly : list pt) (p : pt) : bool :=
+  parity (fun e => proper_cross_left (fst e) (snd e) p) (closed_edges poly).
 
 (* ---- interface for the correspondence check ------------------------------ *)
 Definition mkq (nd : Z * Z) : Q := fst nd # Z.to_pos (snd nd).
@@ -254,7 +185,9 @@ Definition run_aux (c : Z * list ((Z * Z) * (Z * Z)) * list ((Z * Z) * (Z * Z)))
   let pts := map mkpt pts in
   [ map (fun p => b2z (winding_odd poly p)) pts;
     map (fun p => b2z (on_boundary poly p)) pts;
-    map (fun p => b2z (pip cross_left poly p)) pts ].
+    map (fun p => b2z (pip cross_left poly p)) pts;
+    map (fun p => b2z (spec_inside poly p)) pts;
+    map (fun p => b2z (spec_inside_left poly p)) pts ].
 
 (* ========================================================================
    .poly persistence: PolygonFilter.save / save_all / _load / import_all
@@ -496,7 +429,7 @@ Section Persist.
 
   (* PolygonFilter(filename=..., fileid=k): _load, then _check_data, then the
      instance is registered *)
-  Definition load_one (ls : list str) (k : nat) (r : registry)
+  Definition load_one_gen (ou : option Z) (ls : list str) (k : nat) (r : registry)
     : lres pfilter * registry :=
     match nth_error (blocks ls) k with
     | None => (LIndexError, r)
@@ -510,22 +443,29 @@ Section Persist.
                   let rows := sort_keys (a_pts a) in
                   if negb (same_lengths rows) then (LValueError, r)
                   else
-                    match parse_int (strip_set (zs "Polygon []") (strip h)) with
+                    (* unique_id argument given: the header number is not read *)
+                    match (match ou with
+                           | Some u => Some u
+                           | None => parse_int (strip_set (zs "Polygon []") (strip h))
+                           end) with
                     | None => (LValueError, r)
                     | Some uid =>
-                        let '(uid', r') := set_unique_id uid r in
-                        match rows with
-                        | [] => (LIndexError, r')        (* points.shape[1] *)
-                        | _ =>
-                            match rows2 rows with
-                            | None => (LOther, r')       (* PolygonFilterError *)
-                            | Some pts =>
-                                match a_name a with
-                                | None => (LOther, r')   (* self.name was never set: AttributeError *)
-                                | Some name =>
-                                    (LOk (mkpf uid' ax ay name (a_inv a) pts),
-                                     (fst r' ++ [uid'], snd r'))
-                                end
+                        let '(uid1, r1) := set_unique_id uid r in
+                        (* __init__ calls _set_unique_id(unique_id) a second time
+                           with the ARGUMENT when one was given *)
+                        let '(uid', r') := match ou with
+                                           | Some u => set_unique_id u r1
+                                           | None => (uid1, r1)
+                                           end in
+                        (* no point line: points = zeros((0, 2)) (fix 9e2cb2f) *)
+                        match rows2 rows with
+                        | None => (LOther, r')       (* PolygonFilterError *)
+                        | Some pts =>
+                            match a_name a with
+                            | None => (LOther, r')   (* self.name was never set: AttributeError *)
+                            | Some name =>
+                                (LOk (mkpf uid' ax ay name (a_inv a) pts),
+                                 (fst r' ++ [uid'], snd r'))
                             end
                         end
                     end
@@ -535,6 +475,9 @@ Section Persist.
         | LKeyError => (LKeyError, r) | LOther => (LOther, r)
         end
     end.
+
+  Definition load_one : list str -> nat -> registry -> lres pfilter * registry :=
+    load_one_gen None.
 
   (* import_all: fileid = 0, 1, ... until IndexError *)
   Fixpoint import_loop (fuel : nat) (ls : list str) (k : nat) (r : registry)
@@ -625,6 +568,58 @@ Definition run_import (c : str * list Z * Z) : list Z :=
   let '(text, ids, counter) := c in
   enc_res (import_all Z parsef_c parse_int_c text (ids, counter)).
 
+(* case: (text, fileid, unique_id argument or -1 for None, ids, counter)
+   -> PolygonFilter(filename=, fileid=, unique_id=) *)
+Definition run_load_one (c : str * Z * Z * list Z * Z) : list Z :=
+  let '(text, k, u, ids, counter) := c in
+  let '(res, r) := load_one_gen Z parsef_c parse_int_c (if u <? 0 then None else Some u)
+                                (lines text) (Z.to_nat k) (ids, counter) in
+  enc_res (match res with
+           | LOk f => LOk [f] | LIndexError => LIndexError | LValueError => LValueError
+           | LKeyError => LKeyError | LOther => LOther
+           end, r).
+
+(* exact rational value of a token printed by "{:.16e}": [-]d.ddd...de[+-]dd *)
+Fixpoint take_digits (s : str) (acc : Z) (n : Z) : Z * Z * str :=
+  match s with
+  | c :: s' => if is_digit c then take_digits s' (10 * acc + (c - 48)) (n + 1) else (acc, n, s)
+  | [] => (acc, n, [])
+  end.
+Definition parse_sci (s : str) : option Q :=
+  let '(neg, s1) := match s with 45 :: t => (true, t) | _ => (false, s) end in
+  let '(ip, ni, s2) := take_digits s1 0 0 in
+  if ni =? 0 then None else
+  match s2 with
+  | 46 :: s3 =>
+      let '(m, nf, s4) := take_digits s3 ip 0 in
+      match s4 with
+      | 101 :: s5 =>
+          let '(eneg, s6) := match s5 with 45 :: t => (true, t) | 43 :: t => (false, t)
+                                           | _ => (false, s5) end in
+          let '(e, ne, rest) := take_digits s6 0 0 in
+          match rest with
+          | [] => if ne =? 0 then None else
+                  let ex := (if eneg then - e else e) - nf in
+                  let v := if 0 <=? ex then inject_Z (m * 10 ^ ex)
+                           else Qmake m (Z.to_pos (10 ^ (- ex))) in
+                  Some (if neg then Qopp v else v)
+          | _ => None
+          end
+      | _ => None
+      end
+  | _ => None
+  end.
+
+(* case: (token, (lo_num, lo_den), (hi_num, hi_den)): 1 when the exact decimal
+   value of the token lies strictly inside (lo, hi), the interval of reals that
+   round to the saved binary64 value; 0 otherwise; 2 when not parsable *)
+Definition run_sci (c : str * (Z * Z) * (Z * Z)) : list Z :=
+  let '(tok, lo, hi) := c in
+  match parse_sci tok with
+  | None => [2]
+  | Some v => [if Qltb (mkq lo) v && Qltb v (mkq hi) then 1 else 0]
+  end.
+
 (* ---- PolygonFilter.copy(invert) ------------------------------------------------
      if invert: inverted = not self.inverted  else: inverted = self.inverted
      return PolygonFilter(axes=self.axes, points=self.points, name=self.name,
@@ -685,5 +680,4 @@ Definition digits_ok (s : str) : bool :=
   match s with [] => false | _ => forallb is_digit s end.
 
 Definition wf_filter {F} (f : pfilter F) : bool :=
-  (0 <=? f_id F f) && axis_ok (f_ax F f) && axis_ok (f_ay F f) && name_ok (f_name F f)
-  && match f_pts F f with [] => false | _ => true end.
+  (0 <=? f_id F f) && axis_ok (f_ax F f) && axis_ok (f_ay F f) && name_ok (f_name F f).
